@@ -101,6 +101,14 @@ def run(ctx):
                 cases.append(dict(kind=kind, y=[nd if m else float(v) for v, m in zip(y, miss)], nodata=nd, n=n, **params))
                 cases.append(dict(kind=kind, y=[nd + c if m else float(v + c) for v, m in zip(y, miss)], nodata=nd + c, n=n, **params))
                 plan.append(("offset", len(cases) - 2, len(cases) - 1, dict(c=c, family="long gap, small lambda")))
+            # (a') exactly two valid cells: the curve is the line through them
+            if need == 2:
+                n2 = int(rng.integers(4, 30))
+                i0, i1 = sorted(int(v) for v in rng.choice(n2, size=2, replace=False))
+                a2, b2 = int(rng.integers(-2000, 3000)), int(rng.integers(-30, 31))
+                line2 = [a2 + b2 * i for i in range(n2)]
+                cases.append(dict(kind=kind, y=[float(line2[i]) if i in (i0, i1) else nd for i in range(n2)], nodata=nd, n=n2, **params))
+                plan.append(("linear", len(cases) - 1, None, dict(line=line2, family="two valid cells")))
             # (b) valid cells that sum to exactly zero: an antisymmetric line with symmetric gaps, an all-zero pixel with a
             #     gap, and an offset c = -mean(valid)
             h = int(rng.integers(4, 20))
